@@ -91,6 +91,13 @@ class Derivate:
             if knotvector.mult(knot) == knotvector.degree + 1
         )
         newvector = knotvector - nodes
+        # An interior knot of full multiplicity gives a row of zeros: drop it
+        degree = knotvector.degree
+        ctrlpoints = [
+            point
+            for i, point in enumerate(ctrlpoints)
+            if knotvector[i + 1 + degree] != knotvector[i + 1]
+        ]
         newcurve = curve.__class__(newvector, ctrlpoints)
         return newcurve
 
